@@ -24,10 +24,14 @@ if [ "$RC0" = 0 ] && [ "$RC1" != 0 ] && [ "$SUITE" = same ]; then
 import json,sys,os
 d,name,pid,np_,nf,rc0,rc1=sys.argv[1:]
 notes=open(os.path.join(d,'notes.txt')).read() if os.path.exists(os.path.join(d,'notes.txt')) else ''
+old={}
+if os.path.exists(os.path.join(d,'meta.json')):
+    try: old=json.load(open(os.path.join(d,'meta.json')))
+    except Exception: old={}
 json.dump({"id":name,"property":pid,"breaks":pid,"needs_to_manifest":notes.strip(),
  "confirmed":{"how":"tools/confirm_seed.sh in a scratch worktree of /repo HEAD: git apply patch.diff; full pytest suite compared test-by-test with the unchanged tree; demo.py run from the worktree root with and without the change",
  "suite_with_change":{"passed":int(np_),"failed":int(nf),"same_as_baseline":True},"demo_rc_without_change":int(rc0),"demo_rc_with_change":int(rc1)},
- "detected_by":None},open(os.path.join(d,'meta.json'),'w'),indent=1)
+ "detected_by":old.get('detected_by'), "rebased":old.get('rebased'), "repo_head":os.popen('git -C /repo rev-parse --short HEAD').read().strip()},open(os.path.join(d,'meta.json'),'w'),indent=1)
 P
   echo "$NAME: KEPT"
 else
